@@ -284,7 +284,7 @@ def run_one(seed, tier, explicit=None):
             wd = sim.W.workdir('c20')
             counter = [0]
 
-            def feed(name, blob, must_reject, kind='xml', inner=True):
+            def feed(name, blob, must_reject, kind='xml', inner=True, must_accept=False):
                 """One mutant through is_lmf / scan_lexicons / load / add."""
                 counter[0] += 1
                 stats['evals'] += 1
@@ -321,6 +321,11 @@ def run_one(seed, tier, explicit=None):
                         if must_reject and lexc is None:
                             raise Violation(PROP, 'load-accepts', 'load() accepted an invalid '
                                             'file (%s)' % k, detail)
+                        if must_accept and lexc is not None:
+                            raise Violation(PROP, 'valid-rejected', 'load() rejected a file '
+                                            'that %s' % ('dump() produced' if k.startswith('dump')
+                                                         else 'is valid'),
+                                            dict(detail, exc=repr(lexc)))
                         if lexc is None:
                             self_scan(path, loaded, detail)
                     _, aexc = sim.call(wn.add, path, progress_handler=SimHandler)
@@ -345,6 +350,10 @@ def run_one(seed, tier, explicit=None):
                         raise Violation(PROP, 'add-accepts', 'add() accepted an invalid file '
                                         '(%s)' % k, detail,
                                         tags=['nothing-to-add'] if nolex else [])
+                if must_accept and aexc is not None:
+                    raise Violation(PROP, 'valid-rejected', 'add() rejected a file that %s'
+                                    % ('dump() produced' if k.startswith('dump') else 'is valid'),
+                                    dict(detail, exc=repr(aexc)))
                 if aexc is not None:
                     now = observe.raw_dump(sim.W.dbpath())
                     if now != pre:
@@ -382,7 +391,7 @@ def run_one(seed, tier, explicit=None):
                      kind=mu.get('container', 'xml'))
                 raise StopIteration
             # 0. the valid file itself (both as written and after a dump round trip)
-            feed('valid', data, False)
+            feed('valid', data, False, must_accept=True)
             res, exc = sim.call(wn.lmf.load, os.path.join(wd, 'm.xml'), progress_handler=None)
             if exc is not None:
                 raise Violation(PROP, 'valid-rejected', 'load() rejected a valid file',
@@ -396,7 +405,7 @@ def run_one(seed, tier, explicit=None):
                 if exc is not None:
                     raise Violation(PROP, 'dump-raises', 'dump() raised %s' % type(exc).__name__,
                                     {'exc': repr(exc), 'version': v})
-                feed('dump-%s' % v, open(dumped, 'rb').read(), False)
+                feed('dump-%s' % v, open(dumped, 'rb').read(), False, must_accept=True)
             # 1. truncation at every offset
             for off in truncation_offsets(len(data)):
                 blob = data[:off]
